@@ -10,7 +10,7 @@ Extraction "model.ml"
   nlen data_try_new data_try_new_len encode encode_nl decode checksum payload
   msg_of_frame frame_of_msg msg_eqb wf_msgb wf_frameb
   all_sign_types dimensions st_to_bytes st_from_bytes
-  page_new page_from_bytes page_eqb page_id get_pixel set_pixel set_all_pixels wf_pageb total_bytes data_bytes bpc
+  page_new page_from_bytes page_eqb page_id get_pixel set_pixel set_all_pixels wf_pageb total_bytes data_bytes bpc set_pixel_byte_view zero_bytes_view
   vinit vstep vrun bus_step bus_run
   configure configure_if_needed send_pages load_next_page show_loaded_page shut_down create_page sign_width sign_height
   run_script run_bus run_cops_script chunks16
